@@ -58,9 +58,15 @@ TA == Leaf("ta")
 Ext == Leaf("ext")
 \* generic leaves used to build structure; special leaves are put in by edits
 Generic == {N1, TA}
-SpecialLeafIds == IF Wide THEN {"n2", "nbig", "f0", "fneg0", "tb", "tcomma", "tcolon", "tclose", "topen", "tbrace", "blob"}
-                          ELSE {"n2", "f0", "fneg0", "tcomma", "tclose", "topen"}
-LeafIds == {"n1", "ta", "ext"} \cup SpecialLeafIds
+\* numbers: every id is ONE number, with five spellings (see NumSpellings): integers at and around the limits of the kinds
+\* the tokenizer distinguishes (Int: written with a minus sign and fits i64, UInt: no sign and fits u64, BigInt, BigUint),
+\* the same integers as floats, both zeros
+IntIds == {"n0", "n1", "nm1", "n2", "i32max", "i32min", "u32max", "p32", "i64max", "i64min", "mi64m1", "p63", "u64max", "nbig", "mbig"}
+FloatIds == {"f0", "fneg0", "f1", "fm1", "fh", "f1e19", "fp64"}
+NumIds == IntIds \cup FloatIds
+SpecialLeafIds == IF Wide THEN {"n0", "nm1", "n2", "nbig", "i64min", "u64max", "f0", "fneg0", "f1", "tb", "tcomma", "tcolon", "tclose", "topen", "tbrace", "blob"}
+                          ELSE {"n0", "f0", "fneg0", "tcomma", "tclose", "topen"}
+LeafIds == {"n1", "ta", "ext"} \cup SpecialLeafIds \cup NumIds
 
 Items1(X) == {VItem(x) : x \in X} \cup {SItem(k, x) : k \in Generic, x \in (X \cap SlotVals) \cup {Ext}}
 SeqUpTo2(S) == {<<>>} \cup {<<a>> : a \in S} \cup {<<a, b>> : a, b \in S}
@@ -81,7 +87,17 @@ Comp == IF Wide THEN CompWide ELSE CompQuick
 
 TwoAttrs == {Rec(<<Attr("a", x), Attr("b", y)>>, is) : x, y \in {None, N1, Rec(<<>>, <<VItem(N1), VItem(TA)>>)},
                                                       is \in {<<>>, <<VItem(N1)>>, <<VItem(N1), VItem(TA)>>}}
-BaseValues == Generic \cup RecsOver(Generic) \cup RecsOver(Comp) \cup TwoAttrs
+\* every number alone, as an attribute parameter, as a slot key, as a slot value and as an item: context c of number id
+NumContext(id, c) == CASE c = 1 -> Leaf(id)
+                       [] c = 2 -> Rec(<<Attr("a", Leaf(id))>>, <<>>)
+                       [] c = 3 -> Rec(<<>>, <<SItem(Leaf(id), N1)>>)
+                       [] c = 4 -> Rec(<<>>, <<SItem(TA, Leaf(id))>>)
+                       [] c = 5 -> Rec(<<>>, <<VItem(Leaf(id)), VItem(TA)>>)
+NumContexts == {NumContext(id, c) : id \in NumIds, c \in 1..5}
+\* 0 for a value that is not one of these, else the context: all numbers in the same context are compared pairwise
+ContextOf(x) == IF \E c \in 1..5 : \E id \in NumIds : x = NumContext(id, c)
+                  THEN CHOOSE c \in 1..5 : \E id \in NumIds : x = NumContext(id, c) ELSE 0
+BaseValues == Generic \cup RecsOver(Generic) \cup RecsOver(Comp) \cup TwoAttrs \cup NumContexts
 
 -----------------------------------------------------------------------------
 (* D. near misses: one abstract edit *)
@@ -177,30 +193,53 @@ Edits(x) == {w \in (TopEdits(x) \cup DeepEdits(x) \cup LeafEdits(x)) \ {x} : WF(
 (* D. renderings: styles and tokens.  A token is a string; "NL" is a newline, "SP" a space. *)
 
 Style == [sep : {",", ";", "NL"}, pad : BOOLEAN, ea : BOOLEAN, eb : BOOLEAN, ab : BOOLEAN, sg : BOOLEAN,
-          tx : BOOLEAN, nm : {"dec", "hex", "lead0", "alt"}]
+          tx : BOOLEAN, nm : {"dec", "hex", "lead0", "alt", "sgn"}]
 Default == [sep |-> ",", pad |-> FALSE, ea |-> FALSE, eb |-> FALSE, ab |-> FALSE, sg |-> FALSE, tx |-> FALSE, nm |-> "dec"]
 \* every freedom on its own, and three combinations
 StylesFull == {Default,
                [Default EXCEPT !.sep = ";"], [Default EXCEPT !.sep = "NL"], [Default EXCEPT !.pad = TRUE],
                [Default EXCEPT !.ea = TRUE], [Default EXCEPT !.eb = TRUE], [Default EXCEPT !.ab = TRUE],
                [Default EXCEPT !.sg = TRUE], [Default EXCEPT !.tx = TRUE], [Default EXCEPT !.nm = "hex"],
-               [Default EXCEPT !.nm = "lead0"], [Default EXCEPT !.nm = "alt"],
+               [Default EXCEPT !.nm = "lead0"], [Default EXCEPT !.nm = "alt"], [Default EXCEPT !.nm = "sgn"],
                [sep |-> ";", pad |-> TRUE, ea |-> TRUE, eb |-> TRUE, ab |-> TRUE, sg |-> TRUE, tx |-> TRUE, nm |-> "hex"],
                [sep |-> "NL", pad |-> FALSE, ea |-> TRUE, eb |-> FALSE, ab |-> FALSE, sg |-> TRUE, tx |-> FALSE, nm |-> "alt"],
                [sep |-> "NL", pad |-> TRUE, ea |-> FALSE, eb |-> TRUE, ab |-> TRUE, sg |-> FALSE, tx |-> TRUE, nm |-> "lead0"]}
+\* the styles that differ from the default only in the spelling of numbers
+NmStyles == {[Default EXCEPT !.nm = n] : n \in {"dec", "hex", "lead0", "alt", "sgn"}}
 NLMix == [sep |-> "NL", pad |-> FALSE, ea |-> TRUE, eb |-> FALSE, ab |-> FALSE, sg |-> TRUE, tx |-> FALSE, nm |-> "alt"]
 \* near misses are rendered in fewer styles
 StylesFew == {Default, NLMix}
              \cup (IF Wide THEN {[sep |-> ";", pad |-> TRUE, ea |-> TRUE, eb |-> TRUE, ab |-> TRUE, sg |-> TRUE, tx |-> TRUE, nm |-> "hex"]} ELSE {})
 
+\* <<dec, hex, lead0, alt, sgn>>: plain decimal; hexadecimal; leading zeros; binary / upper case / another float form;
+\* "sgn": with a sign where the grammar allows one that does not change the number (`-0` is the integer 0, `+1` is the FLOAT 1.0)
+NumSpellings(id) ==
+    CASE id = "n0" -> <<"0", "-0x0", "00", "-0b0", "-0">>
+      [] id = "n1" -> <<"1", "0x1", "01", "0b1", "0B01">>
+      [] id = "nm1" -> <<"-1", "-0x1", "-01", "-0b1", "-0X1">>
+      [] id = "n2" -> <<"2", "0x2", "002", "0b10", "0X2">>
+      [] id = "i32max" -> <<"2147483647", "0x7fffffff", "02147483647", "0X7FFFFFFF", "0b1111111111111111111111111111111">>
+      [] id = "i32min" -> <<"-2147483648", "-0x80000000", "-02147483648", "-0X80000000", "-0b10000000000000000000000000000000">>
+      [] id = "u32max" -> <<"4294967295", "0xffffffff", "04294967295", "0XFFFFFFFF", "0b11111111111111111111111111111111">>
+      [] id = "p32" -> <<"4294967296", "0x100000000", "04294967296", "0X100000000", "0b100000000000000000000000000000000">>
+      [] id = "i64max" -> <<"9223372036854775807", "0x7fffffffffffffff", "09223372036854775807", "0X7FFFFFFFFFFFFFFF", "0x07fffffffffffffff">>
+      [] id = "i64min" -> <<"-9223372036854775808", "-0x8000000000000000", "-09223372036854775808", "-0X8000000000000000", "-0x08000000000000000">>
+      [] id = "mi64m1" -> <<"-9223372036854775809", "-0x8000000000000001", "-09223372036854775809", "-0X8000000000000001", "-0x08000000000000001">>
+      [] id = "p63" -> <<"9223372036854775808", "0x8000000000000000", "09223372036854775808", "0X8000000000000000", "0x08000000000000000">>
+      [] id = "u64max" -> <<"18446744073709551615", "0xffffffffffffffff", "018446744073709551615", "0XFFFFFFFFFFFFFFFF", "0x0ffffffffffffffff">>
+      [] id = "nbig" -> <<"18446744073709551616", "0x10000000000000000", "018446744073709551616", "0X10000000000000000", "0x010000000000000000">>
+      [] id = "mbig" -> <<"-18446744073709551616", "-0x10000000000000000", "-018446744073709551616", "-0X10000000000000000", "-0x010000000000000000">>
+      [] id = "f0" -> <<"0.0", "0e0", "00.0", "0.", "+0">>
+      [] id = "fneg0" -> <<"-0.0", "-0e0", "-00.0", "-0.", "-0E0">>
+      [] id = "f1" -> <<"1.0", "1e0", "1.00", "10e-1", "+1">>
+      [] id = "fm1" -> <<"-1.0", "-1e0", "-1.00", "-10e-1", "-1.">>
+      [] id = "fh" -> <<"0.5", "5e-1", "0.50", ".5", "+.5">>
+      [] id = "f1e19" -> <<"1e19", "10000000000000000000.0", "1E19", "1e+19", "+1e19">>
+      [] id = "fp64" -> <<"18446744073709551616.0", "1.8446744073709551616e19", "018446744073709551616.0", "18446744073709551616.", "+18446744073709551616.0">>
+NmIndex(nm) == CASE nm = "dec" -> 1 [] nm = "hex" -> 2 [] nm = "lead0" -> 3 [] nm = "alt" -> 4 [] nm = "sgn" -> 5
 \* spelling of a leaf.  Texts that are not identifiers are always quoted.
 Spell(id, st) ==
-    CASE id = "n1" -> (CASE st.nm = "dec" -> "1" [] st.nm = "hex" -> "0x1" [] st.nm = "lead0" -> "01" [] OTHER -> "0b1")
-      [] id = "n2" -> (CASE st.nm = "dec" -> "2" [] st.nm = "hex" -> "0x2" [] st.nm = "lead0" -> "002" [] OTHER -> "0b10")
-      [] id = "nbig" -> (IF st.nm \in {"hex", "alt"} THEN "0x10000000000000000" ELSE "18446744073709551616")
-      [] id = "f0" -> (IF st.nm \in {"dec", "hex"} THEN "0.0" ELSE "0e0")
-      [] id = "fneg0" -> (IF st.nm \in {"dec", "hex"} THEN "-0.0" ELSE "-0e0")
-      [] id = "fh" -> (IF st.nm \in {"dec", "hex"} THEN "0.5" ELSE "5e-1")
+    CASE id \in NumIds -> NumSpellings(id)[NmIndex(st.nm)]
       [] id = "ta" -> (IF st.tx THEN "\"a\"" ELSE "a")
       [] id = "tb" -> (IF st.tx THEN "\"b\"" ELSE "b")
       [] id = "tsp" -> "\"a b\""
